@@ -12,8 +12,11 @@
 // table to every width boundary and to the full state followed by every short tail;
 // plus (jbig2prog.go) every short sequence of well-formed JBIG2 segments with
 // every choice of the referred-to segments, every ordered pair of region /
-// dictionary segments with every value of their coding-parameter bits; and
-// (dctprog.go) progressive JPEG frames followed by scan programs prefix . letter^n.
+// dictionary segments with every value of their coding-parameter bits;
+// (dctprog.go) progressive JPEG frames followed by scan programs prefix . letter^n;
+// (dctframe.go) JPEG frame headers with every assignment of sampling factors to
+// 1..4 components; and (jbig2sd.go) symbol dictionaries whose MQ data codes a
+// program of height classes and then ends.
 // Every case is executed in a single-threaded worker process (engine/procs)
 // because the oracles read process-global counters.
 package c08
@@ -342,6 +345,12 @@ func Worker(args []string) int {
 		o, fails := ws.runCase(x, true)
 		if d := time.Since(t0); d > time.Second { // information only (machine load shows here), never an oracle
 			w.Count("cases_slower_than_1s", 1)
+			if f := os.Getenv("C08_SLOWLOG"); f != "" { // development aid
+				if fh, err := os.OpenFile(f, os.O_APPEND|os.O_CREATE|os.O_WRONLY, 0o644); err == nil {
+					fmt.Fprintf(fh, "%d\t%v\t%s\n", idx, d, x.desc)
+					fh.Close()
+				}
+			}
 			if d > 5*time.Second {
 				w.Count("cases_slower_than_5s", 1)
 				w.Count("cases_slower_than_5s_"+x.space, 1)
@@ -451,6 +460,8 @@ func Run(tier string) int {
 		"JBIG2 segment programs written by the harness's own segment header writer: every sequence of length <= 3 (thorough <= 4) over an alphabet of well-formed segments (page information small/large, immediate and intermediate generic regions 8x8/64x64, immediate and intermediate generic refinement regions, symbol dictionary, immediate and intermediate text region, end of page), and length 4 (5) with a page information segment first, each with every choice of the referred-to segment (none, every segment of the program incl. itself and later ones, a missing one); " +
 		"JBIG2 parameter programs: every ordered pair (thorough: also triples of the 8x8 letters behind a page) of region / dictionary segments over the alphabet generic region x {GBTEMPLATE 0..3 x TPGDON, EXTTEMPLATE x TPGDON, MMR}, refinement region x {GRTEMPLATE 0/1 x TPGRON}, symbol dictionary x SDTEMPLATE 0..3, text region, alone and behind each page information segment, with every referred-to choice. " +
 		"DCT scan programs written by the harness's own JPEG writer: a progressive frame (gray 8x8, 256x256, 1024x1024; YCbCr 4:2:0 128x128) followed by prefix . letter^n over an alphabet of scan headers (DC first / refinement interleaved and on component 1, AC first / refinement on component 1 and 2 over the bands 1..63, 1..5, 6..63, 1..1 and two bit positions, with an end-of-band run table that covers the component exactly / one whose run of 16384 blocks carries over into the next scans / a coefficient table) x zero-filled entropy segments of 2 lengths, every prefix of length <= 1 (large frame: 0; thorough: <= 2 on the small gray frames, <= 1 on the others), every letter repeated n times, n in {1, 2, 3, 63..65, 127..129, 256, 1024, 4096} (thorough: +-1 around these multiples too). " +
+		"DCT frame headers written by the harness's own JPEG writer: 1..4 components x EVERY assignment of sampling factors (H, V) in {1, 2}^2 to every component (thorough: {1, 2, 4}^2 up to 3 components) x SOF0 / SOF2 x image sizes x Adobe APP14 marker {absent, transform 0, 1, 2} x /ColorTransform {absent, 0, 1} x entropy-coded data for {nothing, the first MCU row, the whole image}. " +
+		"JBIG2 symbol dictionary programs: a dictionary segment (own header writer, SDHUFF=0 SDREFAGG=0) whose MQ data codes the height classes prefix . letter^n over an alphabet of classes (empty class with height delta 0, 1, 2, 4, -1, 100; class with one symbol), every prefix of length <= 2, n in {1..6, 8, 16, 64, 256} (thorough: up to 1024), SDNUMNEWSYMS in {1, 2, 4}, with / without export run lengths, then the data ENDS; alone and behind a page information segment; and the MQ data of the short programs cut at every byte. " +
 		"distinct = distinct (entry point, mode, dictionary, body, object) tuples that differ from an unmutated seed")
 	r.Assume(
 		"deviation bound 1: at most one mutation per case (two coupled fields for width x height claims, two keys for parameter pairs)",
@@ -514,6 +525,9 @@ func Run(tier string) int {
 		runtime.GOMAXPROCS(prev)
 	}
 
+	if only := os.Getenv("C08_ONLY"); only != "" {
+		r.Capped("C08_ONLY=" + only + ": only the named spaces are in the table")
+	}
 	deadline := time.Now().Add(budget - 20*time.Second)
 	cfg := procs.Config{ID: "C08", Total: t.total, Args: []string{tier}, Deadline: deadline, Dir: r.Dir + "/.build/procs-C08-" + tier,
 		Log: func(f string, a ...any) { fmt.Printf("[C08] "+f+"\n", a...) }}
@@ -581,6 +595,12 @@ func selfTest(t *table) string {
 		return msg
 	}
 	if msg := dctProgramSelfTest(); msg != "" {
+		return msg
+	}
+	if msg := dctFrameSelfTest(); msg != "" {
+		return msg
+	}
+	if msg := jbig2SymbolDictSelfTest(); msg != "" {
 		return msg
 	}
 	// the case <-> JSON round trip must preserve the case
